@@ -7,6 +7,7 @@ CONSTANTS
   PolA = "any"
   PolQ = "any"
   PolW = "any"
+  MwEnabled = TRUE
   Variant = "asWritten"
   KeepRecords = TRUE
 INVARIANTS TypeOK Ownership HandlerSeesOwn LoggerOwn FinishedCode ClientExact RecordsOwn OncePerRequest
